@@ -259,7 +259,7 @@ CLASSES = ["All", "Any", "AtLeast", "AtLeastS", "AtMost", "Xor", "ExactlyOne", "
 
 
 class TreeGen:
-    def __init__(self, rng, n_leaves=4, max_depth=3, int_p=0.3, wide_p=0.05, classes=None, explicit_p=0.5,
+    def __init__(self, rng, n_leaves=4, max_depth=3, int_p=0.3, wide_p=0.08, classes=None, explicit_p=0.5,
                  bool_only=False, max_arity=4, prefix_p=0.0, str_p=0.3, share=True):
         self.rng = rng
         self.max_depth = max_depth
@@ -278,7 +278,7 @@ class TreeGen:
             if bool_only or r > int_p + wide_p:
                 self.leaves[n] = (0, 1)
             elif r < wide_p:
-                self.leaves[n] = rng.choice([(-32768, 32767), (0, 32767), (-1000, 1000)])
+                self.leaves[n] = rng.choice([(-32768, 32767), (0, 32767), (-1000, 1000), (-128, 127), (-128, 3), (-32768, 2)])
             else:
                 lo = rng.randint(-3, 2)
                 self.leaves[n] = (lo, lo + rng.randint(1, 3))
@@ -461,12 +461,19 @@ def gen_valid(rng, quick=True, twins=True, **kw):
 
 # --------------------------------------------------------------------------- interpretations
 
+def np_scalar(rng, v):
+    """the value as a numpy integer scalar of a width that can hold it — a caller who keeps assignments in an int8 /
+    int16 / int32 array passes exactly such scalars, and a value may sit at the very minimum of its type"""
+    import numpy
+    fits = [d for d, m in ((numpy.int8, 2**7), (numpy.int16, 2**15), (numpy.int32, 2**31), (numpy.int64, 2**63)) if -m <= v < m]
+    return (fits[0] if rng.random() < 0.6 else rng.choice(fits))(v)
+
+
 def render_value(rng, lo, hi):
     """one of the three value forms the API accepts"""
     r = rng.random()
-    if lo == hi and r < 0.1:
-        import numpy
-        return rng.choice([numpy.int64, numpy.int32, numpy.int16])(lo) if -32768 <= lo <= 32767 else numpy.int64(lo)
+    if lo == hi and r < 0.15:
+        return np_scalar(rng, lo)
     if lo == hi and r < 0.6:
         return lo
     if r < 0.8:
